@@ -258,8 +258,10 @@ def ensure_modelrun(area: str = "core", timeout: int = 900) -> t.Tuple[bool, str
     os.makedirs(mld, exist_ok=True)
     # Extraction file: only ExtrOcamlBasic's directives; Z, positive, nat, string, ascii stay Coq inductives.
     with open(os.path.join(mld, "Extract.v"), "w") as fh:
+        # the entry point gets a name no library definition has (Prelude/PyAst.v also defines a `run`)
         fh.write(f"From V Require Import Model.Units_{area}.\nRequire Import ExtrOcamlBasic.\n"
-                 "Extraction Language OCaml.\nExtraction \"model.ml\" run.\n")
+                 f"Definition modelrun_entry := Units_{area}.run.\n"
+                 "Extraction Language OCaml.\nExtraction \"model.ml\" modelrun_entry.\n")
     rc, out = sh(["coqc", "-Q", COQ, "V", "Extract.v"], timeout, cwd=mld)
     if rc != 0:
         return False, "extraction failed: " + out[-800:]
